@@ -661,12 +661,28 @@ _FMT_RE = re.compile(r"([pPufrst])(\d+)")
 def parse_fmt(fmt, I=None):
     from .core import SFmt
     if isinstance(fmt, SFmt) and I is not None:
-        # decide the symbolic int parts of the format by enumeration of their feasible values
+        # the common precondition of both back ends on a symbolic field size is split off first (integers of more than
+        # 64 bits and raw/text fields that are no multiple of 8 bits raise NotImplementedError in the C back end) ...
+        prev = ""
+        for p in fmt.parts:
+            if isinstance(p, str):
+                prev = p
+                continue
+            letter = prev[-1:] if prev else ""
+            if letter in ("u", "s") and I.e.branch(p.z > 64, likely=False):
+                raise _foreign("integer field of more than 64 bits")
+            if letter in ("r", "t") and I.e.branch(p.z % 8 != 0, likely=False):
+                raise _foreign("raw/text field size is no multiple of 8 bits")
+            prev = ""
+        # ... then the symbolic int parts of the format are decided by enumeration of their feasible values
         fmt = "".join([p if isinstance(p, str) else str(I.e.choose_value(p.z, max_values=70)) for p in fmt.parts])
     if not isinstance(fmt, str):
         raise Undecided("bitstruct format not concrete")
     pos = 0
     items = []
+    if re.fullmatch(r"(?:[pPufrst]-?\d+)+", fmt) and "-" in fmt:
+        # a negative field size: both back ends reject the format with an exception of their own
+        raise _foreign(f"negative field size in format {fmt!r}")
     for m in _FMT_RE.finditer(fmt):
         if m.start() != pos:
             raise Undecided(f"bitstruct format {fmt!r}")
@@ -756,9 +772,10 @@ def bs_unpack_from(I, args, kwargs):
     fmt = args[0]
     data = args[1]
     offset = args[2] if len(args) > 2 else kwargs.get("offset", 0)
-    if is_sym(offset):
-        raise Undecided("bitstruct offset symbolic")
     items = parse_fmt(fmt, I)
+    if is_sym(offset):
+        # typically the padding computed from a symbolic bit length: a single value once the format is decided
+        offset = e.choose_value(zint(offset), max_values=70)
     if not ops.is_bytes_like(data):
         raise _foreign("unpack of non-bytes")
     b = ops.as_sbytes(data)
